@@ -17,6 +17,8 @@ inductive Cell
   | sub (a b : Cell)         -- a - b (np.diff)
   | lin (a b : Cell) (w : Rat) -- a + w * (b - a)   (interp_axis)
   | lab (l : Label)          -- an axis label stored as data (argmin / argmax)
+  | arg (cs : List Cell) (labels : List Label) -- the label at NumPy's arg-position of the fibre `cs`
+  | argpos (cs : List Cell)  -- NumPy's arg-position (flat) of the cells `cs`
   | idx (n : Nat)            -- integer literal
   | bool (b : Bool)
   deriving Repr, Inhabited
